@@ -5,7 +5,7 @@
 From Coq Require Import Arith NArith ZArith List Bool.
 From Verif Require Import Base.Bytes Base.Hash Model.Merkle Model.MerkleSpec Model.TreeStore Model.BridgeStore
   Proofs.Frontier Proofs.Rht Proofs.InitCache Proofs.C01Proofs Proofs.BridgeStoreProofs
-  Proofs.TreeStoreProofs Proofs.TreeStoreCorollaries Proofs.BridgeReach.
+  Proofs.TreeStoreProofs Proofs.TreeStoreCorollaries Proofs.BridgeReach Proofs.BridgeAsIf.
 Import ListNotations.
 Open Scope N_scope.
 
@@ -115,7 +115,32 @@ Theorem C04_processor_reorg_as_if_never_seen : forall st1 st2, BReach HT node zh
 Proof. exact (processor_same_history_same_answers HT node node_inj zhf Hzh leafh Hleaf). Qed.
 End Processor.
 
+
+(* ================= database level =================
+   `BRun HT node zhf leafh ks st`: st was reached by ProcessBlock (under any storage fault), Reorg and restart, and ks are the
+   blocks that were processed successfully and not reorged away since. The five tables are a function of ks alone. *)
+Section Tables.
+Variable HT : nat.
+Variable node : N -> N -> N.
+Variable zhf : nat -> N.
+Variable leafh : bridge_ev -> N.
+(* C04 for the tables (histories without the destructive RemoveLegacyToken event: `no_rm` in BRun_ok): the reorged node and ANY
+   node whose surviving history is the part below b — in particular the node that only ever processed those blocks — hold
+   identical block, bridge, claim, token-mapping and legacy-migration tables; with C04_processor_reorg_as_if_never_seen
+   (equal bridge tables => equal surviving deposits => equal exit-tree answers) every query answers alike *)
+Theorem C04_reorg_as_if_never_seen_tables : forall ks st b st2,
+  BRun HT node zhf leafh ks st -> BRun HT node zhf leafh (filter (fun k => (k_num k <? b)%N) ks) st2 ->
+  d_blocks (st_db (reorg st b)) = d_blocks (st_db st2) /\ d_bridges (st_db (reorg st b)) = d_bridges (st_db st2) /\
+  d_claims (st_db (reorg st b)) = d_claims (st_db st2) /\ d_tm (st_db (reorg st b)) = d_tm (st_db st2) /\
+  d_legacy (st_db (reorg st b)) = d_legacy (st_db st2).
+Proof. exact (reorg_as_if_never_seen_tables HT node zhf leafh). Qed.
+Theorem C04_tables_are_function_of_history : forall ks st, BRun HT node zhf leafh ks st -> tables_are (st_db st) ks.
+Proof. exact (run_tables HT node zhf leafh). Qed.
+End Tables.
+
 Print Assumptions C04_reorg_nested.
+Print Assumptions C04_reorg_as_if_never_seen_tables.
+Print Assumptions C04_tables_are_function_of_history.
 Print Assumptions C04_processor_invariant.
 Print Assumptions C04_processor_reorg_reachable.
 Print Assumptions C04_processor_reorg_history.
